@@ -96,6 +96,11 @@ type Result struct {
 	Goroutines []int   `json:"goroutines"`      // after each render
 	Procs      []int   `json:"procs,omitempty"` // history: GOMAXPROCS in force after each call
 	Err        string  `json:"err,omitempty"`
+	// odd output paths (paths.go): the path handed to the entry point, and what a probing os.Create /
+	// first Write of the same path said just before the call
+	Path     string `json:"path,omitempty"`
+	Create   string `json:"create,omitempty"`
+	WriteErr string `json:"write_err,omitempty"`
 }
 
 func is3D(renderer, sink string) bool {
@@ -155,6 +160,9 @@ func targetPath(sp *Spec, n int) string {
 		return filepath.Join(sp.Dir, "no-such-directory", "out."+sp.Sink)
 	case "isdir":
 		return sp.Dir
+	}
+	if isOdd(sp.Target) {
+		return oddPath(sp.Target, sp.Dir, sp.Sink)
 	}
 	return filepath.Join(sp.Dir, fmt.Sprintf("out%d.%s", n, sp.Sink))
 }
@@ -276,6 +284,10 @@ func childMain(arg string) {
 			}
 		case "fault":
 			path = targetPath(&sp, 0)
+			if isOdd(sp.Target) {
+				res.Path = shortPath(path)
+				res.Create, res.WriteErr = probeCreate(path)
+			}
 			callSink(&sp, sp.Renderer, path)
 		case "leak":
 			res.Base = settledGoroutines()
@@ -331,7 +343,14 @@ func runChild(sp Spec) Result {
 	arg, _ := json.Marshal(sp)
 	ctx, cancel := context.WithTimeout(context.Background(), time.Duration(sp.TimeoutMs+8000)*time.Millisecond)
 	defer cancel()
-	cmd := exec.CommandContext(ctx, os.Args[0], "child", string(arg))
+	exe := os.Args[0]
+	if e, err := os.Executable(); err == nil {
+		exe = e
+	}
+	cmd := exec.CommandContext(ctx, exe, "child", string(arg))
+	if fi, err := os.Stat(sp.Dir); err == nil && fi.IsDir() && filepath.IsAbs(sp.Dir) {
+		cmd.Dir = sp.Dir // relative odd paths (".", "..", a relative name) resolve inside the scratch directory
+	}
 	cmd.Stderr = nil
 	outb, err := cmd.Output()
 	var res Result
@@ -492,6 +511,9 @@ func checkC12(c *Ctx, r *Report) error {
 		return err
 	}
 	scratch := filepath.Join(c.Out, "scratch")
+	if a, err := filepath.Abs(scratch); err == nil {
+		scratch = a
+	}
 	if err := os.MkdirAll(scratch, 0o755); err != nil {
 		return err
 	}
@@ -750,6 +772,9 @@ func checkC12(c *Ctx, r *Report) error {
 		}
 		// ---- histories whose run-time environment changes between and during the calls (env.go)
 		specs = append(specs, envHistories(c.Tier, rng, runtime.NumCPU())...)
+		// ---- odd / uncreatable output paths of every kind (paths.go): single calls and histories
+		specs = append(specs, oddFaultSpecs(c.Tier, tN, lN)...)
+		specs = append(specs, oddHistories(c.Tier, rng)...)
 	}
 
 	// ---- run the children (a few at a time)
@@ -793,6 +818,7 @@ func checkC12(c *Ctx, r *Report) error {
 	hung, returned := 0, 0
 	poolExact, poolCases := 0, 0
 	histories := 0
+	oddOS := map[string]string{} // odd path kind -> what os.Create of it said
 	for i, sp := range specs {
 		res := results[i]
 		key := specKey(sp)
@@ -841,15 +867,30 @@ func checkC12(c *Ctx, r *Report) error {
 				}
 			case (sp.Sink == "stl" || sp.Sink == "3mf") && (sp.Target == "nodir" || sp.Target == "isdir"):
 				createOK = false
+			case isOdd(sp.Target):
+				// what the probing os.Create / first Write of the same path said in the child (the OS is
+				// not modelled: its answer is an input of the model)
+				if sp.Sink == "stl" || sp.Sink == "3mf" {
+					createOK = res.Create == "ok"
+				}
+				if sp.Sink == "stl" && res.Create == "ok" && res.WriteErr != "ok" {
+					fail = fmt.Sprintf("(Some %d)", stlFailIndex(0))
+				}
+				count = -1
+				oddOS[sp.Target] = res.Create
 			}
 			cf.Add(fmt.Sprintf("(%d%%N, %s, %s, %s, %s, %s, %s)", id, thr, rle(w), fail, CB(createOK), CB(res.Returned), optNat(count)))
-			r.Case(stratum, key, sp.Target != "ok" && total > 0)
+			r.Case(stratum, key, sp.Target != "ok" && total > 0 && !(isOdd(sp.Target) && res.Create == "ok" && res.WriteErr == "ok"))
 			if res.Returned {
 				returned++
 			} else {
 				hung++
-				r.Violate(key, fmt.Sprintf("the call To%s(%s) did not return within %d ms: %s; the renderer wrote %d items in %d Writes",
-					strings.ToUpper(sp.Sink), targetPath(&Spec{Target: sp.Target, Sink: sp.Sink, Dir: "<dir>"}, 0), timeout, res.Blocked, total, len(w)), clean)
+				what := fmt.Sprintf("the call To%s(%s) did not return within %d ms: %s; the renderer wrote %d items in %d Writes",
+					strings.ToUpper(sp.Sink), targetDisplay(sp.Target, sp.Sink), timeout, res.Blocked, total, len(w))
+				if isOdd(sp.Target) {
+					what += fmt.Sprintf("; the path was %s, os.Create of it says: %s", res.Path, res.Create)
+				}
+				r.Violate(key, what, clean)
 			}
 			if id%37 == 1 {
 				r.Sample(map[string]interface{}{"case": key, "returned": res.Returned, "ms": res.Ms, "count": res.Count, "file_size": res.FileSize})
@@ -865,7 +906,7 @@ func checkC12(c *Ctx, r *Report) error {
 				k := len(res.Goroutines)
 				what := fmt.Sprintf("call %d of a history of %d calls in one process did not return within %d ms", k+1, len(sp.Steps), sp.TimeoutMs)
 				if k < len(sp.Steps) {
-					what += fmt.Sprintf(": To%s(%s renderer, target %s) after the calls %s; %s", strings.ToUpper(sp.Steps[k].Sink), sp.Steps[k].Renderer, sp.Steps[k].Target, stepsKey(sp.Steps[:k]), res.Blocked)
+					what += fmt.Sprintf(": To%s(%s renderer, target %s = %s) after the calls %s; %s", strings.ToUpper(sp.Steps[k].Sink), sp.Steps[k].Renderer, sp.Steps[k].Target, targetDisplay(sp.Steps[k].Target, sp.Steps[k].Sink), stepsKey(sp.Steps[:k]), res.Blocked)
 				}
 				r.Violate(key, what, clean)
 				continue
@@ -959,13 +1000,14 @@ func checkC12(c *Ctx, r *Report) error {
 	if err := cg.Write(c.Out); err != nil {
 		return err
 	}
+	r.Coverage["odd_path_kinds_os_create"] = oddOS
 	r.Coverage["calls_returned"] = returned
 	r.Coverage["calls_hung"] = hung
 	r.Coverage["histories_of_failing_calls"] = histories
 	r.Coverage["goroutine_observations"] = poolCases
 	r.Coverage["goroutine_observations_equal_to_model"] = poolExact
 	r.Coverage["model_compared"] = map[bool]string{true: "pinned (reproduction run)", false: "repaired"}[model == "pinned"]
-	r.Rule = "fault cases: one child process per (sink, renderer, target); scripted renderers write numbered items in the given Write sizes through the real sdf buffers, real renderers (marching cubes uniform/octree, marching squares uniform/quadtree, dual contouring 2d) render a unit sphere/circle; targets: writable file, /dev/full, missing directory, a directory, RLIMIT_FSIZE with SIGXFSZ ignored at every 4096-byte flush boundary of the STL writer (+-1 byte, and below the header size). Observed: returned within the time limit or not (with the blocked frame), STL header count. leak cases: one child per history of k renders, runtime.NumGoroutine() (settled) after each render minus before the first. history cases: one child performs a warm-up (a good call, a failing call), then the same failing call R times (R=40 quick), then good calls of every entry point of that dimension, for every entry point (ToSTL, To3MF, ToDXF, ToSVG) x failure kind (missing directory, path is a directory, /dev/full, RLIMIT_FSIZE soft limit 0/100/4096/20000 set for that call only), scripted and real renderers, plus mixed histories; every call must return and the goroutine count must not exceed its value after the warm-up. env histories (env.go): one child performs a history whose run-time environment changes between and during the calls: runtime.GOMAXPROCS set before a call (lower-then-raise cycles, raise-then-lower, long low / long high phases, three levels in both directions, a staircase through 1,2,3,6,NumCPU-1,NumCPU,NumCPU+1,2*NumCPU,64 and back, random walks over these levels; fixed and NumCPU-relative values below, across and above the number of CPUs), GOMAXPROCS changed during a call (by the shape under evaluation every 97 evaluations, deterministic; by a free-running goroutine), several concurrent calls per step (the number in flight going up and down), the solid / resolution / entry point / renderer changing from call to call, failing sinks in between, GC percent and idle time; all 3D and 2D entry points. Oracle, NumCPU-independent: after a warm-up of two full periods (or the staircase twice) the settled goroutine count never exceeds the largest count seen during the warm-up; a reading above everything seen before is re-read up to 4 times 10 ms apart and the smallest reading counts. Steps up to the first GOMAXPROCS above NumCPU are also compared with the model's pool bound. Non-trivial = a failing target with at least one item, or a leak history; distinct by the spec."
+	r.Rule = "fault cases: one child process per (sink, renderer, target); scripted renderers write numbered items in the given Write sizes through the real sdf buffers, real renderers (marching cubes uniform/octree, marching squares uniform/quadtree, dual contouring 2d) render a unit sphere/circle; targets: writable file, /dev/full, missing directory, a directory, RLIMIT_FSIZE with SIGXFSZ ignored at every 4096-byte flush boundary of the STL writer (+-1 byte, and below the header size). Observed: returned within the time limit or not (with the blocked frame), STL header count. leak cases: one child per history of k renders, runtime.NumGoroutine() (settled) after each render minus before the first. history cases: one child performs a warm-up (a good call, a failing call), then the same failing call R times (R=40 quick), then good calls of every entry point of that dimension, for every entry point (ToSTL, To3MF, ToDXF, ToSVG) x failure kind (missing directory, path is a directory, /dev/full, RLIMIT_FSIZE soft limit 0/100/4096/20000 set for that call only), scripted and real renderers, plus mixed histories; every call must return and the goroutine count must not exceed its value after the warm-up. env histories (env.go): one child performs a history whose run-time environment changes between and during the calls: runtime.GOMAXPROCS set before a call (lower-then-raise cycles, raise-then-lower, long low / long high phases, three levels in both directions, a staircase through 1,2,3,6,NumCPU-1,NumCPU,NumCPU+1,2*NumCPU,64 and back, random walks over these levels; fixed and NumCPU-relative values below, across and above the number of CPUs), GOMAXPROCS changed during a call (by the shape under evaluation every 97 evaluations, deterministic; by a free-running goroutine), several concurrent calls per step (the number in flight going up and down), the solid / resolution / entry point / renderer changing from call to call, failing sinks in between, GC percent and idle time; all 3D and 2D entry points. Oracle, NumCPU-independent: after a warm-up of two full periods (or the staircase twice) the settled goroutine count never exceeds the largest count seen during the warm-up; a reading above everything seen before is re-read up to 4 times 10 ms apart and the smallest reading counts. Steps up to the first GOMAXPROCS above NumCPU are also compared with the model's pool bound. odd output paths (paths.go): every path-taking entry point (ToSTL, To3MF, ToDXF, ToSVG) x 20 kinds of path - empty string, trailing slash, '.', '..', '/', parent is a regular file, name beyond NAME_MAX, path beyond PATH_MAX, NUL byte in the name, read-only directory and existing read-only file (for root: below /sys/kernel), /proc/version (opens, every write fails), a symbolic link to itself, a two-link loop in the parent, a dangling symbolic link, and creatable but unusual ones: /dev/null, a name with blank/newline/tab/quotes/non-ASCII/leading dash, no extension, a relative name, an unclean relative path; the child's working directory is its scratch directory; the path and whatever it needs on disk is built in the child from the kind alone. Single calls (scripted renderers with several batches and with one batch sent by Close, one real renderer) are compared with the model, create_ok being what a probing os.Create of the same path says just before the call; histories in one process: per entry point and kind a good call, the odd call, the odd call R more times (R=24 quick), then good calls of every entry point; per entry point all kinds in turn, the round repeated; per dimension entry point and kind at random with 2-3 concurrent calls now and then; every call must return within the time limit and the settled goroutine count must not exceed what it was after (during, for the rounds) the warm-up. Non-trivial = a failing target with at least one item, or a leak history; distinct by the spec."
 	r.Trusted = append(r.Trusted,
 		"model coq/Sys/Pipeline.v of the ToXXX / writer-goroutine protocol and of the evalRoutines pool, tied twice: by translation (harness/sysgen extracts the statement skeleton of ToTriangles / ToSTL / To3MF / ToDXF / ToSVG, WriteTriangles / writeSTL / write3MF / writeDXF / writeSVG with their goroutines, evalRoutines and marchingCubes from the current source into Generated/SysProgs.v; Sys/PipeProg.v gives a call a small-step meaning, proves it a refinement of Pipeline.next (sim_step) and proves that each of the five extracted calls always returns, C12_source_*; Sys/PoolProg.v proves the extracted pool start equal to render_pool Repaired) and by differential execution (cases_fault_*.v, cases_goroutines_*.v)",
 		"harness/sysgen (classification of Data statements, helper inlining) and the reading of each primitive statement by the interpreter of PipeProg.v; inside r.Render the renderer is taken to block only in its channel sends (one rendezvous per batch)",
